@@ -134,6 +134,23 @@ func execDecode(toks []string) string {
 	return "ok " + showHdr(m.Header) + " " + showAVPs(m.AVP) + " reser=" + hex.EncodeToString(ser) + " insp=" + inspect(m)
 }
 
+type marshalOne struct {
+	X []*diam.AVP `avp:"Origin-Host"`
+}
+
+var dirtyMsg *diam.Message
+
+// dirtyWriterPool writes a message of 0xff bytes so that the pooled serialisation buffer the
+// next WriteTo obtains is not zeroed.
+func dirtyWriterPool() {
+	if dirtyMsg == nil {
+		dirtyMsg = diam.NewMessage(257, 0x80, 0, 1, 1, dict.Default)
+		ff := bytes.Repeat([]byte{0xff}, 900)
+		dirtyMsg.NewAVP(3000001, 0, 0, datatype.Unknown(ff))
+	}
+	dirtyMsg.WriteTo(io.Discard)
+}
+
 func findTok(toks []string, prefix string) string {
 	for _, t := range toks {
 		if strings.HasPrefix(t, prefix) {
@@ -165,6 +182,11 @@ func execBuild(toks []string) string {
 				m.InsertAVP(a)
 			case 'a':
 				m.AddAVP(a)
+			case 'M':
+				// Marshal replaces the AVPs assembled so far by those of the struct
+				if err := m.Marshal(&marshalOne{X: []*diam.AVP{a}}); err != nil {
+					panic("marshal: " + err.Error())
+				}
 			default:
 				// Message.NewAVP builds the AVP itself
 				m.NewAVP(a.Code, a.Flags, a.VendorID, a.Data)
@@ -177,6 +199,17 @@ func execBuild(toks []string) string {
 			return
 		}
 		out = "ser=" + hex.EncodeToString(ser) + " hlens=" + strings.Join(hlens, ",")
+		// the image actually written: WriteTo serialises into a pooled buffer that an earlier
+		// write has left full of other bytes
+		dirtyWriterPool()
+		var wb bytes.Buffer
+		if _, err := m.WriteTo(&wb); err != nil {
+			out += " wt=err"
+		} else if bytes.Equal(wb.Bytes(), ser) {
+			out += " wt=same"
+		} else {
+			out += " wt=" + hex.EncodeToString(wb.Bytes())
+		}
 		var m2 *diam.Message
 		var rerr error
 		if r := guard(func() { m2, rerr = diam.ReadMessage(bytes.NewReader(ser), dictByName(d)) }); r != "" {
@@ -650,7 +683,7 @@ func genMessage(r *RNG) genMsg {
 	var ops []byte
 	for i := 0; i < n; i++ {
 		g.avps = append(g.avps, genAVP(r, v, app, 0))
-		ops = append(ops, "++a^"[r.Intn(4)])
+		ops = append(ops, "++a^++a^M"[r.Intn(9)])
 	}
 	g.ops = string(ops)
 	return g
